@@ -188,4 +188,64 @@ theorem nunique_gt_one (vals : List (Option Rat)) :
   · rintro ⟨a, ha, b, hb, hne⟩; exact ⟨a, b, ha, hb, hne⟩
   · rintro ⟨a, b, ha, hb, hne⟩; exact ⟨a, ha, b, hb, hne⟩
 
+/-! ### counts per key -/
+
+theorem sum_count_per_key {α : Type} (key : α → Int) (ks : List Int) (xs : List α) (hnd : ks.Nodup)
+    (hall : ∀ x ∈ xs, key x ∈ ks) :
+    (ks.map (fun i => (xs.filter (fun r => key r == i)).length)).sum = xs.length := by
+  induction ks generalizing xs with
+  | nil =>
+    cases xs with
+    | nil => rfl
+    | cons x xs => exact absurd (hall x (by simp)) (by simp)
+  | cons k ks ih =>
+    obtain ⟨hk, hnd'⟩ := List.nodup_cons.mp hnd
+    simp only [List.map_cons, List.sum_cons]
+    have hrest := ih (xs.filter (fun r => !(key r == k))) hnd' (by
+      intro x hx
+      obtain ⟨hx1, hx2⟩ := List.mem_filter.mp hx
+      have := hall x hx1
+      simp at hx2
+      rcases List.mem_cons.mp this with h | h
+      · exact absurd h hx2
+      · exact h)
+    have hsame : ∀ i ∈ ks, ((xs.filter (fun r => !(key r == k))).filter (fun r => key r == i)).length
+        = (xs.filter (fun r => key r == i)).length := by
+      intro i hi
+      rw [List.filter_filter]
+      congr 1
+      apply List.filter_congr
+      intro x _
+      by_cases hxi : key x = i
+      · have : key x ≠ k := by intro e; rw [e] at hxi; exact hk (hxi ▸ hi)
+        simp [hxi]
+        intro e; exact this (hxi.trans e)
+      · simp [hxi]
+    have : (ks.map (fun i => (xs.filter (fun r => key r == i)).length))
+        = ks.map (fun i => ((xs.filter (fun r => !(key r == k))).filter (fun r => key r == i)).length) :=
+      List.map_congr_left (fun i hi => (hsame i hi).symm)
+    rw [this, hrest]
+    have hsplit : ∀ (l : List α), (l.filter (fun r => key r == k)).length
+        + (l.filter (fun r => !(key r == k))).length = l.length := by
+      intro l
+      induction l with
+      | nil => rfl
+      | cons x l ihl =>
+        by_cases hx : key x = k <;> simp [List.filter_cons, hx] <;> omega
+    have := hsplit xs
+    omega
+
+theorem nObsPerCount_total (obs : List (Int × Option Rat)) :
+    ((nObsPerCount obs).map (·.2)).sum = obs.length := by
+  unfold nObsPerCount
+  simp only [List.map_map]
+  apply sum_count_per_key (fun p : Int × Option Rat => p.1)
+  · apply (List.Perm.nodup_iff (List.mergeSort_perm _ _)).mpr
+    have := (firstsAux_nodup (id : Int → Int) [] (obs.map (·.1))).1
+    simpa using this
+  · intro x hx
+    rw [List.mem_mergeSort]
+    have := firstsAux_complete (id : Int → Int) [] (obs.map (·.1)) x.1 (List.mem_map.mpr ⟨x, hx, rfl⟩) (by simp)
+    simpa using this
+
 end Pharmpy.C14
